@@ -225,7 +225,10 @@ class Program:
         if root == "itertools":
             from .catalogue import _bounded_count
 
-            return _ModuleNS({"chain": itertools.chain, "product": itertools.product, "count": _bounded_count})
+            return _ModuleNS({"chain": itertools.chain, "product": itertools.product, "count": _bounded_count, "starmap": itertools.starmap,
+                              "filterfalse": itertools.filterfalse, "pairwise": itertools.pairwise, "zip_longest": itertools.zip_longest,
+                              "islice": itertools.islice, "repeat": itertools.repeat, "accumulate": itertools.accumulate,
+                              "permutations": itertools.permutations, "combinations": itertools.combinations, "groupby": itertools.groupby})  # fmt: skip
         if root == "re":
             return _ModuleNS({k: getattr(re, k) for k in ("compile", "sub", "match", "fullmatch", "search", "escape", "split", "findall")})
         if root == "dataclasses":
@@ -240,6 +243,10 @@ class Program:
 
     def stdlib(self, base, attr, name):
         root = base.split(".")[0]
+        if root == "collections" and not base.startswith("collections.abc") and attr in ("Counter", "defaultdict", "OrderedDict", "deque"):
+            import collections as _c
+
+            return {"Counter": _c.Counter, "defaultdict": _c.defaultdict, "OrderedDict": dict, "deque": _c.deque}[attr]
         if root in ("typing", "collections", "abc", "types", "__future__", "enum", "datetime", "decimal", "pprint"):
             return NoOp(attr)
         mod = self.stdlib_module(root)
